@@ -290,6 +290,20 @@ func (robustSuite) Gen(r *Rng, i int, tier string) any {
 				add(rd, []byte(b))
 			}
 		}
+		// every constraint name with every degenerate version text (release-suffix and separator scanners at their boundaries)
+		for _, n := range conNames {
+			for _, v := range conEdgeVers {
+				add("constraint", []byte(n+"="+v))
+			}
+		}
+		for _, g := range []string{
+			"include: @F0@\n", "include: @P0@\n", "include: @F1@\n\n@@@\ninclude: @F0@\n", "include: @P1@\n\n@@@\ninclude: @P0@\n",
+			"include: @F1@\n\n@@@\ninclude: @P0@\n", "include: @F1@\n\n@@@\ninclude: @F2@\n\n@@@\ninclude: @F1@\n",
+			"include: @F1@\n\n@@@\ninclude: @F2@\n\n@@@\ninclude: @F3@\n\n@@@\ncontents:\n  packages: [a]\n",
+			"include: ./@F1@\n\n@@@\ninclude: @F0@\n", "include: missing.yaml\n", "include: ''\n", "include: .\n", "include: /\n",
+		} {
+			add("imageconfig-inc", []byte(g))
+		}
 		for _, hostile := range [][]SFile{
 			{{Path: "", Type: "file", Mode: 0o644, Content: "x"}},
 			{{Path: "", Type: "dir", Mode: 0o755}},
@@ -339,6 +353,27 @@ func (robustSuite) Gen(r *Rng, i int, tier string) any {
 			add("lock", robustMutate(r, []byte(robustLockSeed), true))
 		case 10:
 			add("imageconfig", robustMutate(r, []byte(robustYamlSeed), true))
+			if r.Chance(50) {
+				// include graphs: 1-4 files, each including a random file (by bare name through the include paths, by
+				// absolute path, or with a ./ prefix), so chains, self-includes and cycles of every length occur
+				n := r.Range(1, 4)
+				var fs []string
+				for k := 0; k < n; k++ {
+					t := ""
+					if r.Chance(85) {
+						t = "include: " + Pick(r, []string{"@F%d@", "@P%d@", "./@F%d@", "@F%d@", "inc/../@F%d@"}) + "\n"
+						t = fmt.Sprintf(t, r.Intn(n))
+					}
+					if r.Chance(60) {
+						t += "contents:\n  packages: [p" + fmt.Sprint(k) + "]\n"
+					}
+					if r.Chance(10) {
+						t = string(robustMutate(r, []byte(t), true))
+					}
+					fs = append(fs, t)
+				}
+				add("imageconfig-inc", []byte(strings.Join(fs, "\n@@@\n")))
+			}
 		case 11:
 			if r.Chance(50) {
 				// tar-level: one header of the (single-member) archive rewritten
@@ -600,6 +635,32 @@ func robustApply(reader string, data []byte) (ans string) {
 		os.WriteFile(p, data, 0o644)
 		var ic types.ImageConfiguration
 		if err := ic.Load(ctx, p, nil, sha256.New()); err != nil {
+			return "err"
+		}
+		return "ok validate:" + okErr(ic.Validate())
+	case "imageconfig-inc":
+		// a small include graph: data = file texts separated by "\n@@@\n"; file k is written as inc/f<k>.yaml (and
+		// also as f<k>.yaml in the working directory's stand-in, the first include path), `@F<k>@` in a text names file k
+		// as an include would (bare name, found through the include paths), `@P<k>@` names it by its absolute path
+		dir, _ := os.MkdirTemp("", "verif-robust-")
+		defer os.RemoveAll(dir)
+		inc := filepath.Join(dir, "inc")
+		inc2 := filepath.Join(dir, "inc2")
+		os.MkdirAll(inc, 0o755)
+		os.MkdirAll(inc2, 0o755)
+		files := bytes.Split(data, []byte("\n@@@\n"))
+		if len(files) > 6 {
+			files = files[:6]
+		}
+		for k, f := range files {
+			for j := range files {
+				f = bytes.ReplaceAll(f, []byte(fmt.Sprintf("@F%d@", j)), []byte(fmt.Sprintf("f%d.yaml", j)))
+				f = bytes.ReplaceAll(f, []byte(fmt.Sprintf("@P%d@", j)), []byte(filepath.Join([]string{inc, inc2}[j%2], fmt.Sprintf("f%d.yaml", j))))
+			}
+			os.WriteFile(filepath.Join([]string{inc, inc2}[k%2], fmt.Sprintf("f%d.yaml", k)), f, 0o644)
+		}
+		var ic types.ImageConfiguration
+		if err := ic.Load(ctx, "f0.yaml", []string{inc, inc2}, sha256.New()); err != nil {
 			return "err"
 		}
 		return "ok validate:" + okErr(ic.Validate())
